@@ -53,6 +53,18 @@ def gen_case(rng, tier):
     if rng.random() < 0.4:
         c['scale'] = rng.choice([2.0, 0.5, 1024.0, 3.0, 0.1, rng.uniform(0.01, 100)])
     c['periods'] = rng.choice([252, 252, 52, 12, 365, 1638, 1])
+    if rng.random() < 0.5:
+        # a benchmark with its own (different) dates: an earlier start and/or a later end, other values
+        cur = c['curve']
+        lo = cur[0][0] - rng.choice([0, 7, 30, 90])
+        hi = cur[-1][0] + rng.choice([0, 0, 5, 40])
+        bd, e = [], 100.0
+        for d in range(lo, hi + 1):
+            if (d + 3) % 7 <= 4 and (rng.random() < 0.9 or not bd):
+                e = max(1.0, e * (1 + rng.uniform(-0.03, 0.03)))
+                bd.append([d, e])
+        if len(bd) >= 3:
+            c['bench'] = bd
     return c
 
 
@@ -193,11 +205,11 @@ class C17(Prop):
                            ('cagr', a['cagr'], js['cagr']), ('max drawdown vs performance', a['maxdd'], js['maxdd'])):
             if not ok(x, y, 1e-12):
                 F.append('tearsheet / JSON / performance disagree on %s: %s vs %s' % (name, x, y))
-        jb = a.get('json_bench')
-        if jb:
-            for name in ('sharpe', 'sortino', 'cagr', 'maxdd', 'duration', 'ann_vol'):
-                if not ok(js[name], jb[name], 1e-12):
-                    F.append('JSON export: the same curve as benchmark reports %s = %s, as strategy %s' % (name, jb[name], js[name]))
+        jb, ja = a.get('json_bench'), a.get('json_bench_alone')
+        if jb and ja:
+            for name in ('n', 'sharpe', 'sortino', 'cagr', 'maxdd', 'duration', 'ann_vol'):
+                if not ok(ja[name], jb[name], 1e-12):
+                    F.append('JSON export: a curve passed as benchmark reports %s = %s, the same curve on its own %s' % (name, jb[name], ja[name]))
         if not ok(js['std'] * math.sqrt(P), js['ann_vol'], 1e-9):
             F.append('JSON annualised volatility %s, sqrt(periods) x std = %s' % (js['ann_vol'], js['std'] * math.sqrt(P)))
         for name in ('dd', 'returns', 'cum'):
